@@ -1,18 +1,19 @@
 // c03_trees.cpp — the TBB lookup of the tree-based exact variants (ShortestOddCycleLookup<..., true>, CandidateCycleBuilder with
 // its weight-limit exits, mcb_sva_fvs_trees_tbb / mcb_sva_iso_trees_tbb), parmcb headers UNCHANGED, compiled against the
 // controllable fake TBB (harness/shim/tbb, build_cpp(..., shim=True)).  Exact tie to coq/theories/ParTreesModel.v.
-//   L <fvs|iso|horton> <D|I> <scale> <nbits> <bitstring|-> <shuffle> <ncalls> (<k> ids)*ncalls <graph>
+//   (weight types: D = double w*2^scale, I = int, L = long long — 64-bit integers, values above 2^53 included)
+//   L <fvs|iso|horton> <D|I|L> <scale> <nbits> <bitstring|-> <shuffle> <ncalls> (<k> ids)*ncalls <graph>
 //       builds trees + candidates with the real builder; shuffle = 0: std::sort with the lambda of _mcb_sva_trees (what the entry
 //       points do), shuffle = s > 0: the emission order rearranged by a Fisher-Yates shuffle driven by an LCG seeded with s and
 //       sorted_cycles = false (the TBB lookup ignores the flag and must not rely on any order); constructs ONE
 //       ShortestOddCycleLookup<G, WMap, true> and calls it on the signed sets one after the other under the bit stream:
 //       TREES k src* ARR n pos* CAND n (root edge weight)* CALLS m (R found weight|MAX k sorted-ids P bits-consumed)*
 //       (ARR = position in the builder's emission order of every element of the sorted vector)
-//   B <fvs|iso|horton> <D|I> <scale> <k> ids <graph>
+//   B <fvs|iso|horton> <D|I|L> <scale> <k> ids <graph>
 //       direct calls of CandidateCycleBuilder::operator() after a sequential update_parities of every tree, for every
 //       candidate (emission order) and the limits none, w-1, w, w+1, w(e)-1, w(e), w/2 (w = recorded weight, units):
 //       TREES k src* CAND n (root edge weight)* Q m (i use limit found weight k sorted-ids)*
-//   W <fvs|iso> <D|I> <scale> <nbits> <bitstring|-> <graph>
+//   W <fvs|iso> <D|I|L> <scale> <nbits> <bitstring|-> <graph>
 //       the arrangement std::sort leaves (same builder + same std::sort on the same graph object: deterministic), then the
 //       entry point mcb_sva_<x>_trees_tbb under the bit stream:
 //       TREES k src* ARR n pos* ROOTS .. EORD .. RET w N n CYC (len sorted-ids)* POS bits-consumed
@@ -149,7 +150,8 @@ template<class G> void run_builder_calls(const std::string &bld, Toks &t, int sc
     parmcb::CandidateCycleBuilder<G, WMap> builder(c.g, wm);
     out << " Q " << 7 * co.cycles.size();
     for (size_t i = 0; i < co.cycles.size(); i++) {
-        long long w = std::llround(std::ldexp((double) co.cycles[i].weight(), -c.scale));
+        // the recorded weight in the case's units: integral weight types exactly (a 64-bit weight above 2^53 must not pass through double)
+        long long w = std::is_integral<W>::value ? (long long) co.cycles[i].weight() : std::llround(std::ldexp((double) co.cycles[i].weight(), -c.scale));
         long long we = c.iw.at(c.id(co.cycles[i].edge()));
         const long long lims[7] = { 0, w - 1, w, w + 1, we - 1, we, w / 2 };
         for (int q = 0; q < 7; q++) {
@@ -199,12 +201,21 @@ int main() {
         if (ty != "D") scale = 0;
         if (kind == "L") {
             std::vector<bool> bits = read_bits(t);
-            if (ty == "D") run_lookup<DGraph>(bld, bits, t, scale, out); else run_lookup<IGraph>(bld, bits, t, scale, out);
+            if (ty == "D") run_lookup<DGraph>(bld, bits, t, scale, out);
+            else if (ty == "L") run_lookup<LGraph>(bld, bits, t, scale, out);
+            else if (ty == "I") run_lookup<IGraph>(bld, bits, t, scale, out);
+            else throw std::runtime_error("bad weight type");
         } else if (kind == "B") {
-            if (ty == "D") run_builder_calls<DGraph>(bld, t, scale, out); else run_builder_calls<IGraph>(bld, t, scale, out);
+            if (ty == "D") run_builder_calls<DGraph>(bld, t, scale, out);
+            else if (ty == "L") run_builder_calls<LGraph>(bld, t, scale, out);
+            else if (ty == "I") run_builder_calls<IGraph>(bld, t, scale, out);
+            else throw std::runtime_error("bad weight type");
         } else if (kind == "W") {
             std::vector<bool> bits = read_bits(t);
-            if (ty == "D") run_whole<DGraph>(bld, bits, t, scale, out); else run_whole<IGraph>(bld, bits, t, scale, out);
+            if (ty == "D") run_whole<DGraph>(bld, bits, t, scale, out);
+            else if (ty == "L") run_whole<LGraph>(bld, bits, t, scale, out);
+            else if (ty == "I") run_whole<IGraph>(bld, bits, t, scale, out);
+            else throw std::runtime_error("bad weight type");
         } else throw std::runtime_error("bad kind");
     });
 }
